@@ -53,9 +53,9 @@ func vtxOpenSqlc(w *vtxWorld, api, ctor string) (vtxTransactor, func()) {
 		done = func() { _ = db.Close() }
 	}
 	cc := NewConnWithCache(conn, nil)
-	return func(useCtx bool, body func(context.Context, vtxSession) error) error {
+	return func(ctx context.Context, useCtx bool, body func(context.Context, vtxSession) error) error {
 		if useCtx {
-			return cc.TransactCtx(context.Background(), func(ctx context.Context, s sqlx.Session) error {
+			return cc.TransactCtx(ctx, func(ctx context.Context, s sqlx.Session) error {
 				return body(ctx, vtxSess{s})
 			})
 		}
